@@ -78,6 +78,28 @@ func columnOfRows(query *Query, data any, name string) (any, error) {
 	return rs, nil
 }
 
+// endsInMarker reports whether a selector ends at the back-navigation marker,
+// however it is spelled: `<-`, `<-.<-`, '<-', and with an empty continuation,
+// a trailing dot or blanks behind it (`<-::`, `<-.`, `<- `)
+func endsInMarker(selector string) bool {
+	selector = strings.ReplaceAll(selector, "'", "")
+	return strings.HasSuffix(strings.TrimRight(selector, " .:"), "<-")
+}
+
+// scopeSnapshot is the enclosing document as it is now, not the live scope
+// (which is about to hold the rows that refer to it), without pending CTEs and
+// its own marker
+func scopeSnapshot(scope Map) Map {
+	snapshot := make(Map, len(scope))
+	for key, value := range scope {
+		if _, isCte := value.(CteEvaluation); isCte || key == "<-" {
+			continue
+		}
+		snapshot[key] = value
+	}
+	return snapshot
+}
+
 func ValueOf(query *Query, current Map, any any) (any, error) {
 	switch value := any.(type) {
 	case ColumnName:
@@ -119,15 +141,8 @@ func ValueOf(query *Query, current Map, any any) (any, error) {
 			// is now, not the live scope (which is about to hold the rows
 			// that refer to it), without pending CTEs and its own marker
 			// (also when reached through a path or spelled quoted: `<-.<-`, '<-')
-			if scope, ok := rs.(Map); ok && strings.HasSuffix(strings.ReplaceAll(string(value), "'", ""), "<-") {
-				snapshot := make(Map, len(scope))
-				for key, value := range scope {
-					if _, isCte := value.(CteEvaluation); isCte || key == "<-" {
-						continue
-					}
-					snapshot[key] = value
-				}
-				return snapshot, nil
+			if scope, ok := rs.(Map); ok && endsInMarker(string(value)) {
+				return scopeSnapshot(scope), nil
 			}
 			return rs, nil
 		}
